@@ -554,3 +554,7 @@ impl IntoIterator for Linkage<'_> {
         self.into_cluster()
     }
 }
+
+#[cfg(kani)]
+#[path = "/verif/kani/linkage.rs"]
+mod verif_kani;
